@@ -148,10 +148,22 @@ class SWWorld(object):
   def inject(self, port, raw, with_data=True):
     from pox.lib.packet.ethernet import ethernet
     pkt = ethernet(raw=raw)
-    if with_data:
-      self.switch.rx_packet(pkt, port, packet_data=raw)
-    else:
-      self.switch.rx_packet(pkt, port)
+    try:
+      if with_data:
+        self.switch.rx_packet(pkt, port, packet_data=raw)
+      else:
+        self.switch.rx_packet(pkt, port)
+    except Exception as e:
+      # nothing a frame, the table or the port flags hold entitles the data
+      # path to fail on its caller (a pcap loop, a test bed's link)
+      import traceback
+      tb = traceback.extract_tb(e.__traceback__)
+      at = ["%s:%d %s" % (f.filename.rsplit("/", 1)[-1], f.lineno, f.name)
+            for f in tb[-3:]]
+      raise S.SimAbort("datapath-raised/%s" % type(e).__name__,
+                       "rx_packet(port %r, %d-byte frame %s...) raised %s: %s "
+                       "at %s" % (port, len(raw), raw[:32].hex(),
+                                  type(e).__name__, str(e)[:120], at))
 
 
 class End(object):
